@@ -31,7 +31,7 @@ func (p *ShortMessage) ReadFrom(r io.Reader) (n int64, err error) {
 		}
 		if err == nil {
 			p.Message = make([]byte, length-byte(p.UDHeader.Len()))
-			_, err = buf.Read(p.Message)
+			_, err = io.ReadFull(buf, p.Message)
 		}
 	}
 	return
